@@ -91,7 +91,7 @@ HARNESSES = [
          fp=dict(_FP_FILE, destroy="mw_destroy"),
          timeout=600, cases=[dict(id="all", tier="quick")]),
     dict(name="meta_append", file="meta_append.c",
-         label="bounded(append size <= 9000)", timeout=280, defines={"APPEND_MAX": 9000},
+         label="bounded(append size <= 9000)", timeout=600, weight=20, defines={"APPEND_MAX": 9000},
          unwindset=["sqfs_meta_writer_append.0:5", "c13_memcpy.0:9"],
          instrument_flags=["--replace-calls", "sqfs_meta_writer_flush:c13_flush_contract"],
          fp=dict(_FP_FILE, do_block="c14_do_block", destroy="c14_obj_destroy"),
